@@ -47,6 +47,17 @@ Proof.
                | apply c_uint_ok | apply c_bool_ok | apply c_fixed_ok | apply c_varbytes_ok | apply c_varuint_ok | apply c_unit_ok ].
 Qed.
 
+Lemma cr_candidate_ok : codec_ok cr_candidate.
+Proof. unfold cr_candidate, cr_info_unsigned, c_string, h168, u8, u32, u64. codec_tac. Qed.
+
+Lemma cr_state_key_frame_ok : codec_ok cr_state_key_frame.
+Proof.
+  unfold cr_state_key_frame, candidates, deposit_info, smap, sset, m168, c_string, h168, u64.
+  repeat first [ apply cr_candidate_ok | apply votes_lock_ok | apply c_pair_ok | apply c_map_ok | apply c_set_ok
+               | apply c_list_ok | apply c_uint_ok | apply c_fixed_ok | apply c_varbytes_ok | apply c_varuint_ok
+               | apply c_unit_ok ].
+Qed.
+
 (* ---- generic consequences of [codec_ok] *)
 
 Section Generic.
